@@ -41,13 +41,13 @@ def jobs(tier, seed):
         for si in idx:
             for eng in ['MD', 'RDA', 'IG']:
                 out.append({'dom': 3, 'si': si, 'truth': ['pos', 'sparse'][si % 2], 'engine': eng, 'total': 'known' if si % 4 else 'none',
-                            'iters': 600, 'tau': 1e-2, 'seed': seed})
+                            'iters': 600, 'tau': 1e-2, 'seed': seed, 'prior': si % 2 == 1})
     else:
         for si in range(len(s3)):
             for tk in ['pos', 'sparse']:
                 for eng in ['MD', 'RDA', 'IG']:
                     for tot in ['known', 'none']:
-                        out.append({'dom': 3, 'si': si, 'truth': tk, 'engine': eng, 'total': tot, 'iters': 3000, 'tau': 1e-3, 'seed': seed})
+                        out.append({'dom': 3, 'si': si, 'truth': tk, 'engine': eng, 'total': tot, 'iters': 3000, 'tau': 1e-3, 'seed': seed, 'prior': tot == 'none'})
         s4 = M.structures(M.MENU4, 3)
         for si in range(0, len(s4), 2):
             for eng in ['MD', 'RDA', 'IG']:
@@ -69,6 +69,14 @@ def evaluate(job):
     attrs, sizes, struct, prob = problem_for(job)
     eng = FactoredInference(Domain(attrs, sizes), iters=job['iters'])
     with M.quiet():
+        if job.get('prior'):
+            # the engine has been used before on two other structures (estimation is history-free without warm start, see C13)
+            for d_ in (7, 23):
+                st_ = M.structures(M.MENU3 if job['dom'] == 3 else M.MENU4, 3)
+                pj = M.Problem(attrs, sizes, st_[(job['si'] + d_) % len(st_)], job['si'] + d_, 'pos', job['seed'])
+                eng.iters = 5
+                eng.estimate(pj.fresh_measurements(), total=pj.T, engine=job['engine'])
+            eng.iters = job['iters']
         model = eng.estimate(prob.fresh_measurements(), total=prob.T if job['total'] == 'known' else None, engine=job['engine'])
     T = float(model.total)
     p = np.asarray(model.datavector(), dtype=float)
